@@ -35,7 +35,9 @@ BOUND = {
     "(AMBER) and x 6 force fields (default); 1 deviation: every clash probe, "
     "every omitted atom / truncated side chain (with ballast chain), water "
     "probes at 2.8 A x 14 directions, partner poses for one seed-chosen "
-    "partner residue; nucleic strands; stage boundaries: repair, debump x2, "
+    "partner residue; omitted atom pairs, ideal-slot partner pairs, the "
+    "torsion alphabet and the alias-name block of S3 (see C04); nucleic "
+    "strands; stage boundaries: repair, debump x2, "
     "add_hydrogens, optimise, cleanup, final",
     "thorough": "quick + water probes at 3.4 A, all 15 partner residues, "
     "2-deviation blocks",
